@@ -12,6 +12,7 @@ from pv.driver import BudgetExceeded, Driver
 
 ID = 'C18'
 TITLE = 'Process.current()'
+ANCHORS = ['plumpy.processes:Process._process_scope', 'plumpy.processes:Process._run_task', 'plumpy.processes:Process.call_soon', 'plumpy.processes:Process.current']
 LEVEL = 'exploration'
 TECHNIQUE = ('runtime monitoring: assertion Process.current() is self sampled inside generated step functions (entry, after every await, exit), '
              'every hook override and every scheduled callback, and Process.current() is None sampled between loop callbacks, for concurrently '
